@@ -68,7 +68,14 @@ def check_so(run, rid):
     guard = [t for t in g.live if t.kind == 'test']
     run.ob(rid, fire, fire.node, 'SingleObserver.fire has an already-fired guard', bool(latch_tests), slot='fire-has-guard',
            message='SingleObserver.fire has no already-fired test (fires observers again, or iterates None)')
-    # ---- when_fired
+    # ---- when_fired (it may delegate the fired leg to already_fired(d): seen with that call written out)
+    if any(is_call_to(c, 'self.already_fired') for c in calls_in(wf)):
+        from ..normalize import force_inline
+        import copy as _copy
+        nn = force_inline(wf.node, af.node, True)
+        if nn is not None:
+            wf = _copy.copy(wf)
+            wf.node = nn
     g = cfg_of(wf)
 
     def cls2(a):
